@@ -903,8 +903,11 @@ func (ctx Ctx) callExpr(s *ast.CallExpr) coq.Expr {
 		if signature, ok := ctx.typeOf(s.Fun).(*types.Signature); ok {
 			for j := 0; j < signature.Params().Len(); j++ {
 				if _, ok := signature.Params().At(j).Type().Underlying().(*types.Interface); ok {
+					if j >= len(s.Args) {
+						break
+					}
 					interfaceName := signature.Params().At(j).Type().String()
-					structName := ctx.typeOf(s.Args[0]).String()
+					structName := ctx.typeOf(s.Args[j]).String()
 					interfaceName = unqualifyName(interfaceName)
 					structName = unqualifyName(structName)
 					if interfaceName != structName && interfaceName != "" && structName != "" {
@@ -914,10 +917,15 @@ func (ctx Ctx) callExpr(s *ast.CallExpr) coq.Expr {
 							ctx.unsupported(s, "passing a value as the interface type literal %s (declare a named interface type)", interfaceName)
 							return nil
 						}
-						_, named := ctx.typeOf(s.Args[0]).(*types.Named)
-						_, isStruct := ctx.typeOf(s.Args[0]).Underlying().(*types.Struct)
+						_, named := ctx.typeOf(s.Args[j]).(*types.Named)
+						_, isStruct := ctx.typeOf(s.Args[j]).Underlying().(*types.Struct)
 						if !named || !isStruct {
 							ctx.unsupported(s, "passing a value of type %s as interface %s (only struct values are converted)", structName, interfaceName)
+							return nil
+						}
+						if j != 0 {
+							// the conversion is applied to the first argument
+							ctx.unsupported(s, "passing a value of type %s as interface %s (only the first argument is converted)", structName, interfaceName)
 							return nil
 						}
 						conversion := coq.StructToInterfaceDecl{
@@ -2226,6 +2234,9 @@ func (ctx Ctx) funcDecl(d *ast.FuncDecl) coq.FuncDecl {
 
 	fd.Args = append(fd.Args, ctx.paramList(d.Type.Params)...)
 	fd.ReturnType = ctx.returnType(d.Type.Results)
+	if obj, ok := ctx.info.Defs[d.Name].(*types.Func); ok {
+		ctx.checkInterfaceConversions(d.Body, obj.Type().(*types.Signature))
+	}
 	fd.Body = ctx.blockStmt(d.Body, ExprValReturned)
 	ctx.dep.addName(fd.Name)
 	return fd
@@ -2260,6 +2271,7 @@ func (ctx Ctx) constDecl(d *ast.GenDecl) []coq.Decl {
 	var specs []coq.Decl
 	for _, spec := range d.Specs {
 		vs := spec.(*ast.ValueSpec)
+		ctx.checkInterfaceConversions(vs, nil)
 		ctx.dep.addName(vs.Names[0].Name)
 		specs = append(specs, ctx.constSpec(vs))
 	}
@@ -2274,6 +2286,7 @@ func (ctx Ctx) globalVarDecl(d *ast.GenDecl) []coq.Decl {
 	var specs []coq.Decl
 	for _, spec := range d.Specs {
 		vs := spec.(*ast.ValueSpec)
+		ctx.checkInterfaceConversions(vs, nil)
 		ctx.dep.addName(vs.Names[0].Name)
 		specs = append(specs, ctx.constSpec(vs))
 	}
